@@ -132,4 +132,33 @@ mutual
     | _, _ => false
 end
 
+
+
+/-! ## Seeds handed to the alias samplers by `init_sampling(seed)` (seed ≠ 0)
+
+  Two alias samplers built with the same seed return the same stream, so the independence of the
+  draw streams that `C09_sample_dist` assumes needs pairwise distinct seeds. -/
+
+/-- `ProbDetGrammar.init_sampling`: `seed + i` for the i-th non-terminal of `self.tags` -/
+def detSeeds (seed nTags : Nat) : List Nat := (List.range nTags).map (fun i => seed + i)
+
+/-- `ProbUGrammar.init_sampling`: rule sampler of the i-th non-terminal -/
+def ruleSeedsU (seed nTags : Nat) : List Nat := (List.range nTags).map (fun i => seed + i)
+/-- the start sampler -/
+def startSeedU (seed nTags : Nat) : Nat := seed + nTags
+/-- the k-th alternative sampler, counting the rules (S, P) in the order of `self.tags` -/
+def altSeedsU (seed nTags nRules : Nat) : List Nat :=
+  (List.range nRules).map (fun k => seed + (nTags + 1) + k)
+
+def allSeedsU (seed nTags nRules : Nat) : List Nat :=
+  ruleSeedsU seed nTags ++ startSeedU seed nTags :: altSeedsU seed nTags nRules
+
+/-- the assignment before fix C09-F4: every rule of the i-th non-terminal got `seed + 7 * i`;
+    `rulesPerTag[i]` = number of rules of the i-th non-terminal -/
+def altSeedsOld (seed : Nat) (rulesPerTag : List Nat) : List Nat :=
+  (List.range rulesPerTag.length).flatMap (fun i => List.replicate (rulesPerTag.getD i 0) (seed + 7 * i))
+
+def allSeedsOld (seed : Nat) (rulesPerTag : List Nat) : List Nat :=
+  ruleSeedsU seed rulesPerTag.length ++ startSeedU seed rulesPerTag.length :: altSeedsOld seed rulesPerTag
+
 end PS.Sampler
